@@ -141,6 +141,8 @@ def ringpos_contract(self, indices):
 STUBS = {"armi.reactor.composites:ArmiObject.getFissileMass": "fissile_contract",
          "armi.reactor.composites:ArmiObject.getMaxParam": "maxparam_contract",
          "armi.reactor.grids.hexagonal:HexGrid.getRingPos": "ringpos_contract"}
+STUBS_REAL_RINGS = {"armi.reactor.composites:ArmiObject.getFissileMass": "fissile_contract",
+                    "armi.reactor.composites:ArmiObject.getMaxParam": "maxparam_contract"}  # where the ring POSITION matters (first-third test)
 OVERRIDES = {"armi.reactor.cores:parameters": "ParametersStub"}
 
 
@@ -171,9 +173,9 @@ def assembly(num, nBlocks, label, stationary=()):
     return a
 
 
-def world(track, withPool, numRings, maxAssemNum):
+def world(track, withPool, numRings, maxAssemNum, symmetry="full"):
     """an empty core in a reactor (with or without a pool); returns (core, reactor, pool)"""
-    g = hexgrid("full")
+    g = hexgrid(symmetry)
     pool = new(PoolStub, kids=[], parent=None)
     r = new(Reactor, name="r", p=new(PMap, time=12.5, cycle=3, maxAssemNum=maxAssemNum), excore=new(ExcoreStub, items=({"sfp": pool} if withPool else {})),
             parent=None, _children=[])
@@ -553,3 +555,55 @@ def lookups_by_location_and_name_agree_with_the_children(n: int, i1: int, j1: in
     except KeyError:
         known = False
     assert not known, "a name that is not in the core is not found"
+
+
+@lemma(gen=dict(SWAPGEN, n=(3, 3), m=(0, 3)), stubs=STUBS, overrides=OVERRIDES, timeout=90)
+def cascade_moves_every_assembly_one_place_on(i1: int, j1: int, i2: int, j2: int, i3: int, j3: int, m: int):
+    """FuelHandler.swapCascade([a1, a2, a3]) (three assemblies at symbolic cells, two blocks each, the same stationary
+    pattern in all three - every pattern enumerated): a2 takes a1's place, a3 takes a2's, a1 goes to the far end; the
+    inventory is unchanged, Inv holds; stationary blocks stay at their core location, travelling blocks travel."""
+    m = choose(m, 0, 3)
+    core, r, pool = world(True, True, 4, 9)
+    a1 = assembly(1, 2, "001-001", stationary_of(m, 2))
+    a2 = assembly(2, 2, "002-001", stationary_of(m, 2))
+    a3 = assembly(3, 2, "002-002", stationary_of(m, 2))
+    place(core, a1, i1, j1)
+    place(core, a2, i2, j2)
+    place(core, a3, i3, j3)
+    assume(inv(core, pool))
+    fh = new(FuelHandler, o=new(OperatorStub, r=r), moved=[])
+    b1, b2, b3 = list(a1._children), list(a2._children), list(a3._children)
+    fh.swapCascade([a1, a2, a3])
+    assert inv(core, pool), "Inv preserved"
+    assert len(core._children) == 3 and core._children[0] is a1 and core._children[1] is a2 and core._children[2] is a3, "same inventory"
+    assert at(core, i1, j1) is a2 and at(core, i2, j2) is a3 and at(core, i3, j3) is a1, "every assembly one place on, the first to the far end"
+    assert (a2.spatialLocator.i, a2.spatialLocator.j) == (i1, j1) and (a3.spatialLocator.i, a3.spatialLocator.j) == (i2, j2) and (a1.spatialLocator.i, a1.spatialLocator.j) == (i3, j3)
+    assert len(core.childrenByLocator) == 3
+    for k in range(2):
+        if k in stationary_of(m, 2):
+            assert a2._children[k] is b1[k] and a3._children[k] is b2[k] and a1._children[k] is b3[k], "stationary blocks stay at their core location"
+        else:
+            assert a1._children[k] is b1[k] and a2._children[k] is b2[k] and a3._children[k] is b3[k], "travelling blocks travel"
+        assert a1._children[k].parent is a1 and a2._children[k].parent is a2 and a3._children[k].parent is a3
+    assert a1.p.numMoves == 2 and a2.p.numMoves == 1 and a3.p.numMoves == 1, "one count per move made"
+
+
+@lemma(gen=dict(GEN, i1=(-1, 4), j1=(-2, 4)), stubs=STUBS_REAL_RINGS, overrides=OVERRIDES, timeout=90)
+def discharge_swap_in_a_third_core_records_what_the_outgoing_assembly_stood_for(i1: int, j1: int, track: bool):
+    """dischargeSwap in a third-core (periodic) model, the outgoing assembly anywhere in the represented third
+    (symbolic cell): the incoming assembly takes its place and stands for itself, the outgoing one remembers that it
+    stood for three assemblies (one at the centre); Inv holds."""
+    core, r, pool = world(track, True, 9, 9, "third periodic")
+    out = assembly(1, 1, "001-001")
+    inc = assembly(7, 1, "LoadQueue")
+    place(core, out, i1, j1)
+    assume(core.spatialGrid.isInFirstThird(out.spatialLocator, includeTopEdge=True))
+    assume(hexring(i1, j1) <= 9)
+    assume(inv(core, pool))
+    fh = new(FuelHandler, o=new(OperatorStub, r=r), moved=[])
+    fh.dischargeSwap(inc, out)
+    assert inv(core, pool)
+    assert at(core, i1, j1) is inc and inc.parent is core and len(core._children) == 1
+    assert out.p.multiplicity == (1 if (i1, j1) == (0, 0) else 3), "a third-core assembly off the centre stands for three"
+    assert inc.p.multiplicity == 1
+    assert (out.parent is pool) == track
